@@ -47,8 +47,33 @@ func (BaseKeeper).setTotalBalanceOfCoin
     trusted
     modifies dao_total
     ensures dao_total == cset(old(dao_total), coin.Denom, coin.Amount)
-func (BaseKeeper).setHoldersIndex
+// the holders prefix store (HoldersPrefix | lenprefix(addr) -> sentinel) as the abstract set dao_holders: raw KV leaves (assumed)
+alias PStoreC12 github.com/cosmos/cosmos-sdk/store/prefix.Store
+uf ps_is_holders(s PStoreC12) bool
+uf addr_of_lp(k []uint8) Addr
+func github.com/cosmos/cosmos-sdk/types/address.MustLengthPrefix
+    pure as addr_lp
+alias RawBytes []uint8
+axiom addr_of_lp: forall a Addr :: addr_of_lp(addr_lp(convto(a, RawBytes))) == a
+func (BaseKeeper).getHoldersStore
     trusted
+    ensures ps_is_holders(result)
+func (github.com/cosmos/cosmos-sdk/store/prefix.Store).Has
+    params s, key
+    requires holders: ps_is_holders(s)
+    ensures result == dao_holders[addr_of_lp(key)]
+func (github.com/cosmos/cosmos-sdk/store/prefix.Store).Set
+    params s, key, value
+    requires holders: ps_is_holders(s)
+    modifies dao_holders
+    ensures dao_holders == aset(old(dao_holders), addr_of_lp(key), true)
+func (github.com/cosmos/cosmos-sdk/store/prefix.Store).Delete
+    params s, key
+    requires holders: ps_is_holders(s)
+    modifies dao_holders
+    ensures dao_holders == aset(old(dao_holders), addr_of_lp(key), false)
+// verified: after the call the index lists addr exactly when its STORED balance is non-zero, and nobody else's entry changes
+func (BaseKeeper).setHoldersIndex
     modifies dao_holders
     ensures dao_holders == aset(old(dao_holders), addr, !ciszero(dao_bal[addr]))
 
